@@ -31,38 +31,57 @@ let bool_s b = if b then "true" else "false"
 let hash_of = function "sha1" -> SHA1 | "sha256" -> SHA256 | "sha512" -> SHA512 | _ -> failwith "hash"
 let split_on c s = String.split_on_char c s
 
-(* ---- hash contexts as one sum type so that histories can be run on "one object" ---- *)
-type hctx = C1 of ctx1 | C2 of ctx2 * string
-let h_fresh = function "sha1" -> C1 fresh1 | "sha256" -> C2 (fresh2 (nat_of_int 64), "sha256") | "sha512" -> C2 (fresh2 (nat_of_int 128), "sha512") | "sha512pinned" -> C2 (fresh2 (nat_of_int 128), "sha512pinned") | _ -> failwith "hash"
-let h_init = function C1 c -> C1 (sha1_init c) | C2 (c, "sha256") -> C2 (sha256_init c, "sha256") | C2 (c, t) -> C2 (sha512_init c, t)
-let h_update c m = match c with C1 c -> C1 (sha1_update c m) | C2 (c, "sha256") -> C2 (sha256_update c m, "sha256") | C2 (c, t) -> C2 (sha512_update c m, t)
-let h_finish = function
-  | C1 c -> let (c', d) = sha1_finish c in (C1 c', d)
-  | C2 (c, "sha256") -> let (c', d) = sha256_finish c in (C2 (c', "sha256"), d)
-  | C2 (c, "sha512") -> let (c', d) = sha512_finish c in (C2 (c', "sha512"), d)
-  | C2 (c, t) -> let (c', d) = sha512_finish_pinned c in (C2 (c', t), d)
+(* ---- hash contexts (Model_Hash.hctx) ---- *)
+let h_fresh t = hfresh (hash_of t)
 (* state injection: set the count of already-processed bytes (a multiple of the block size) *)
 let h_inject c tot = match c with
-  | C1 c -> C1 { c with s_transforms = N.div tot (n_of_int 64) }
-  | C2 (c, t) -> C2 ({ c with m_tot = tot }, t)
-let h_oneshot t m = snd (h_finish (h_update (h_init (h_fresh t)) m))
+  | HC1 c -> HC1 { c with s_transforms = N.div tot (n_of_int 64) }
+  | HC256 c -> HC256 { c with m_tot = tot }
+  | HC512 c -> HC512 { c with m_tot = tot }
+let h_oneshot t m = if t = "sha512pinned" then sha512_oneshot_pinned m else hash_oneshot (hash_of t) m
+let b01 s = s = "1"
 
 let run toks =
   match toks with
   | ["cteq"; a; b] -> bool_s (ct_equals (bx a) (bx b))
   | ["spec.eq"; a; b] -> bool_s (bx a = bx b)
   | ["sha"; t; m] -> hx (h_oneshot t (bx m))
+  | ["shapinned"; m] -> hx (sha512_oneshot_pinned (bx m))
   | ["spec.sha"; t; m] -> hx (sHA_spec (hash_of t) (bx m))
   | "shahist" :: t :: ops ->
       (* ops: I | U:<hex> | F | J:<dec total> ; prints the digest of every F, comma separated *)
       let c = ref (h_fresh t) and outs = ref [] in
       List.iter (fun o ->
-        if o = "I" then c := h_init !c
-        else if o = "F" then (let (c', d) = h_finish !c in c := c'; outs := hx d :: !outs)
-        else if String.length o >= 2 && o.[0] = 'U' then c := h_update !c (bx (String.sub o 2 (String.length o - 2)))
+        if o = "I" then c := hinit !c
+        else if o = "F" then (let (c', d) = hfinish !c in c := c'; outs := hx d :: !outs)
+        else if String.length o >= 2 && o.[0] = 'U' then c := hupdate !c (bx (String.sub o 2 (String.length o - 2)))
         else if String.length o >= 2 && o.[0] = 'J' then c := h_inject !c (n_of_dec (String.sub o 2 (String.length o - 2)))
         else failwith "shahist op") ops;
       String.concat "," (List.rev !outs)
+  | ["hexstr"; t; m] -> str_of_bytes (hash_hexstr (hash_of t) (bx m))
+  | ["hmac"; t; k; m] -> hx (get_hmac_raw (hash_of t) (bx k) (bx m))
+  | ["spec.hmac"; t; k; m] -> hx (hMAC_spec (hash_of t) (bx k) (bx m))
+  | ["hmacstr"; t; k; m; ih; iu] -> hx (get_hmac_str (hash_of t) (bx k) (bx m) (b01 ih) (b01 iu))
+  | ["spec.hmacstr"; t; k; m; ih; iu] ->
+      let mac = hMAC_spec (hash_of t) (bx k) (bx m) in
+      hx (if b01 ih then hex_of_bytes (b01 iu) mac else mac)
+  | ["tohex"; iu; m] -> hx (to_hex (b01 iu) (bx m))
+  | ["spec.tohex"; iu; m] -> hx (hex_of_bytes (b01 iu) (bx m))
+  | ["hmacovf"; _; _] -> "throw:overflow_error"   (* msg_len > SIZE_MAX - block_size: C11 verdict model *)
+  | "hmachist" :: t :: ops ->
+      (* ops on ONE HmacContext object: I:<key> | U:<hex> | F *)
+      let h = ref (hc_new (hash_of t)) and outs = ref [] in
+      List.iter (fun o ->
+        let arg () = bx (String.sub o 2 (String.length o - 2)) in
+        if o = "F" then (let (h', d) = hmac_final !h in h := h'; outs := hx d :: !outs)
+        else if o.[0] = 'I' then h := hmac_init !h (arg ())
+        else if o.[0] = 'U' then h := hmac_update !h (arg ())
+        else failwith "hmachist op") ops;
+      String.concat "," (List.rev !outs)
+  | "spec.cat" :: t :: msgs -> String.concat "," (List.map (fun m -> hx (sHA_spec (hash_of t) (bx m))) msgs)
+  | "spec.hmaccat" :: t :: kms ->
+      String.concat "," (List.map (fun km -> match split_on ':' km with
+         | [k; m] -> hx (hMAC_spec (hash_of t) (bx k) (bx m)) | _ -> failwith "km") kms)
   | t :: _ -> failwith ("unknown op " ^ t)
   | [] -> ""
 
